@@ -40,6 +40,15 @@ Definition client_get (s : istore) : result (list oid) :=
   | Some l => cm_load (wrap (stored_data l))
   end.
 
+(* ListClusterInventoryObjs, projected on the one inventory object of the model: no object =
+   the empty map (no entry); otherwise the entry of that object is Load of it, and a Load
+   error is the error of the whole call *)
+Definition client_list (s : istore) : result (option (list oid)) :=
+  match s with
+  | None => Ok None
+  | Some _ => match client_get s with Ok l => Ok (Some l) | Err => Err end
+  end.
+
 Record outcome := mkOutcome {
   oc_err : bool;            (* the operation returned an error *)
   oc_reqs : list req;       (* mutating requests sent, in order *)
